@@ -215,6 +215,16 @@ def run(ctx):
         check("braces", mk(False), mk(True), None, fin, strict)
         loop_check("braces", mk(False), mk(True), strict)
 
+    # directed family (+ / -): both operands the SAME variable, the target one of them or another one, straight-line and in loops
+    for i in range(ctx.n(12, 80)):
+        r = ctx.rng
+        t, a, b = r.choice([("x", "y", "z"), ("x", "x", "y"), ("y", "x", "x"), ("z", "z", "z")])
+        st = r.choice([f"{t} = {a} + {a};", f"{t} = {t} + {t};", f"{t} = {a} + {a}; {b} = {t} + {b};", f"{a} = {b} + {b}; {t} = {a} + {a};"])
+        wrap = r.choice(["%s", "while (z > 0) { %s }", "for (i = 0; i < z; i++) { %s }" if "z =" not in st else "while (y > 0) { %s }",
+                         "if (x > 0) { %s } else { y = x + z; }"])
+        a_ = "int f(int x, int y, int z, int i)\n{\n  " + wrap % st + "\n}\n"
+        check("minus", a_, a_.replace(" + ", " - "), None, r.random() < 0.5, r.random() < 0.3)
+
     # directed family (loop mode, function order): a function whose loop fails for every choice / for some choices, and a function with a
     # well-behaved loop, in both orders (anything a loop leaves behind must not reach the loops analysed after it)
     for i in range(ctx.n(16, 120)):
